@@ -37,7 +37,7 @@ DEFAULT = dict(unwind=4, rules=queue_rules(), mem_gb=16, timeout=780)
 ASSUMPTIONS = [
     "sequential consistency: the cfg(multiqueue2_verif) shim atomics ignore Ordering arguments and fences are no-ops",
     "schedule class S(d,b) of DESIGN.md section 4: suspended operations resume in LIFO order; at most b operations start at preemption points",
-    "MemoryManager::{get_token,remove_token,update_token,free} and ToFree::delete replaced by never-reclaiming ledger stubs in whole-queue harnesses (kani -Z stubbing); native replay runs the real ones",
+    "MemoryManager::{get_token,remove_token,update_token,free} and ToFree::delete replaced by never-reclaiming ledger stubs in whole-queue harnesses (kani -Z stubbing; the native replay of such a harness uses the same stubs via --cfg multiqueue2_verif_stubmm); C16/C17 harnesses run and replay the real manager",
     "futures 0.1 replaced by the environment stub /verif/stubs/futures01 (task layer = harness executor)",
     "std::sync::Mutex / parking_lot Mutex+Condvar replaced by single-thread-of-control shims",
     "loop bounds as listed per harness; unwinding assertions on (a bound that is too small fails the run)",
